@@ -2,6 +2,8 @@ import Asn1Model.Typing
 import Asn1Model.OerTyping
 import Asn1Proofs.Lemmas.UperRoundtrip
 import Asn1Proofs.Lemmas.UperCounterexample
+import Asn1Proofs.Lemmas.OerRoundtrip
+import Asn1Proofs.Lemmas.OerCounterexample
 /-
   C01 — binary codecs round-trip.  Property theorems only.
   (The general round-trip theorems over the whole `Ty` universe are in
@@ -55,5 +57,23 @@ example :
     t.wf = true ∧ t.defaultsOk = true ∧ hasType t v = true ∧ Uper.fragFree t v = true ∧ t.nsOk = true ∧
       (Uper.enc t v).isOk = true := by
   refine ⟨by decide +kernel, by decide +kernel, by decide +kernel, by decide +kernel, by decide +kernel, by decide +kernel⟩
+
+/-- **OER round-trip, all types, all values** (same universe as `uper_roundtrip_partial`).
+Hypotheses that are finding predicates: `utf8Ok` = F_oer_fixed_utf8 (UTF8String under a fixed SIZE is
+written as n octets) and `noSwallow` = no EncodeError is swallowed inside an extension addition
+(`except EncodeError: pass`, here reachable only through a length that needs more than 127 length octets). -/
+theorem oer_roundtrip_partial (t : Ty) (v : Val) (bytes rest : Bytes)
+    (hwf : t.wf = true) (hwf' : Oer.oerWf t = true) (hd : t.defaultsOk = true)
+    (ht : hasType t v = true) (hu : Oer.utf8Ok t v = true) (hns : Oer.noSwallow t v = true)
+    (he : Oer.enc t v = .ok bytes) :
+    Oer.dec t (bytes ++ rest) = .ok (canon t v, rest) :=
+  Oer.roundtrip_partial t v bytes rest hwf hwf' hd ht hu hns he
+
+/-- every value accepted by the checkers is accepted by the OER encoder, unless a length needs more
+than 127 length octets (then the library's EncodeError) -/
+theorem oer_enc_total (t : Ty) (v : Val)
+    (hwf : t.wf = true) (hd : t.defaultsOk = true) (ht : hasType t v = true) :
+    (∃ bytes, Oer.enc t v = .ok bytes) ∨ Oer.enc t v = .error .encodeError :=
+  Oer.enc_total t v hwf hd ht
 
 end Asn1.C01
